@@ -53,6 +53,8 @@ CARRIED = {
     # update() of external-load items (PointLoad, SolidBodyForce / Gravity: constant vectors, zero matrices) is C14 `loads`
     # ... the uniform-grid fast path of the assembly (cell-constant integrands broadcast to all cells) is C10 `uniform_region`
     "C01": [("C03", "mixed", None), ("C03", "kinematics", None), ("C02", "mixed_blocks", None), ("C10", "uniform_region", None), ("C07", "fun_items_jac_items", None), ("C14", "loads", None)],
+    # weak forms written with the Form expression API are composed of the math helpers (dot / ddot / dya ... with their modes): C17 `tensor`
+    "C02": [("C17", "tensor", None)],
     # regions evaluate the element tables at the points of their default rules: the element identities are C04, the rules
     # (incl. that inv() leaves the shared default scheme alone) C05; the padded plane-strain hessian is C10 `planestrain_hess`
     # ... "differential volumes ... equal across element families on the same geometry": the higher-order meshes the
@@ -60,15 +62,17 @@ CARRIED = {
     "C06": [("C05", "scheme", lambda cfg: cfg.get("tier") != "thorough"), ("C10", "planestrain_hess", None), ("C04", "element", lambda cfg: cfg.get("tier") != "thorough"), ("C16", "midpoints", lambda cfg: cfg.get("tier") != "thorough")],
     # condensed vs explicit three-field: the explicit side is the real NearlyIncompressible / ThreeFieldVariation law
     # whose blocks are the C03 `mixed` contract
+    # ... a plane-strain body equals the unit-thickness slab only if both default rules integrate their stiffness integrands exactly
+    # (C09 `rule_exactness`); axisymmetric forms interpolate the radius with the element's shape FUNCTIONS (C04 `element`)
     # ... the condensed body's matrix (anchor file _solidbody_incompressible.py) is C01 `nearly_incompressible`; the commit of
     # its (p, J) state on convergence is Results.update_statevars (C07)
-    "C10": [("C03", "mixed", None), ("C01", "nearly_incompressible", None), ("C07", "update_statevars", None)],
+    "C10": [("C03", "mixed", None), ("C01", "nearly_incompressible", None), ("C07", "update_statevars", None), ("C09", "rule_exactness", None), ("C04", "element", lambda cfg: cfg.get("tier") != "thorough")],
     # pressure resultants are stated against StubAreaChange
     # ... and the zero total moment of the internal forces is the proved first-moment identity plus Kirchhoff symmetry
     # P F^T = F P^T of the constitutive law: the C11 contracts of the Lagrange wrappers / AD wrappers
     # ... "all selections of loaded faces": the faces a point mask selects are the C13 `mask` contract; body-force sum and
     # total mass are exact only if the rule in use is (all rules a region may be given: C05 `scheme`, 3 s)
-    "C14": [("C03", "kinematics", None), ("C11", "lagrange", None), ("C11", "wrapper", None), ("C11", "handcoded", lambda cfg: cfg.get("part") == "balance"), ("C04", "element", lambda cfg: cfg.get("tier") != "thorough"), ("C13", "cell", lambda cfg: cfg.get("clause") in ("closure", "faces")), ("C13", "mask", None), ("C05", "scheme", lambda cfg: cfg.get("tier") != "thorough")],
+    "C14": [("C03", "kinematics", None), ("C11", "lagrange", None), ("C11", "wrapper", None), ("C11", "handcoded", lambda cfg: cfg.get("part") == "balance"), ("C04", "element", lambda cfg: cfg.get("tier") != "thorough"), ("C13", "cell", lambda cfg: cfg.get("clause") in ("closure", "faces")), ("C13", "mask", None), ("C05", "scheme", lambda cfg: cfg.get("tier") != "thorough"), ("C03", "handcoded", None)],
     # hand-coded vs differentiated versions are compared on the plain call; the hand-coded models' out= buffer variants
     # (what a solid body actually calls) are the C03 `handcoded` contract
     # ... micro-sphere models of both back ends integrate over the Bazant-Oh sphere rule (C05 `scheme`: isotropy of the tangent at
@@ -96,15 +100,19 @@ CARRIED = {
     "C19": [("C16", "update_bookkeeping", None), ("C04", "element", lambda cfg: cfg.get("tier") != "thorough"), ("C06", "lagrange", lambda cfg: cfg.get("permute") is False and cfg.get("tier") != "thorough")],
     # the free unknowns of a modal analysis are those of dof.partition over the job's boundaries: the selection a Boundary
     # makes (all fx / fy / fz / mode / skip / mask options) is the C08 `boundary` contract
+    # ... and a tangent with both minor symmetries (no response to a rigid rotation): for strain-based materials that is the
+    # symmetrisation in MaterialStrain.hessian (C03 `small_strain`)
     # ... "exactly six zero-frequency modes" needs a stiffness without spurious zero-energy modes: the default rule of every region
     # template integrates the stiffness integrand of its element exactly (C09 `rule_exactness`, 3 s)
     # ... the prescribed unknowns of cell-less points are C08 `dof0-dof1`; rigid modes carry no strain because the shape
     # function gradients sum to zero (C04 element identities)
-    "C18": [("C08", "boundary", None), ("C08", "dof0-dof1", None), ("C08", "apply", None), ("C04", "element", lambda cfg: cfg.get("tier") != "thorough"), ("C09", "rule_exactness", None)],
+    "C18": [("C08", "boundary", None), ("C08", "dof0-dof1", None), ("C08", "apply", None), ("C04", "element", lambda cfg: cfg.get("tier") != "thorough"), ("C09", "rule_exactness", None), ("C03", "small_strain", None)],
     # ... and "all hyperelastic materials": the analytic stress a curve is compared with is the model's documented one --
     # the model functions of the two AD back ends agree (C12 `backends`) and have the documented initial moduli (`moduli`)
     # ... the reaction force of the curve is tools.force over the moved boundary, the curve data tools.curve (C19); the
     # convergence test and the Newton driver the job runs (anchor file tools/_newton.py) are C07 `check` / `newtonrhapson`
+    # ... and on the rule: exactness of every rule a region may be given, and inv() (used by extrapolate) leaving the shared
+    # default instance of a template alone (C05 `scheme`)
     # ... patch tests on "any" cell of a family rest on gradient == D(function) and the partition of unity of the element (C04)
-    "C09": [("C15", "Job.evaluate", None), ("C15", "Step.generate", None), ("C08", "loadcase", None), ("C08", "apply", None), ("C12", "backends", lambda cfg: cfg.get("tier") != "thorough" and cfg.get("model") != "native-lagrange"), ("C12", "moduli", lambda cfg: cfg.get("tier") != "thorough"), ("C19", "force_moment", None), ("C19", "curve", None), ("C07", "check", None), ("C07", "newtonrhapson", None), ("C04", "element", lambda cfg: cfg.get("tier") != "thorough")],
+    "C09": [("C15", "Job.evaluate", None), ("C15", "Step.generate", None), ("C08", "loadcase", None), ("C08", "apply", None), ("C12", "backends", lambda cfg: cfg.get("tier") != "thorough" and cfg.get("model") != "native-lagrange"), ("C12", "moduli", lambda cfg: cfg.get("tier") != "thorough"), ("C19", "force_moment", None), ("C19", "curve", None), ("C07", "check", None), ("C07", "newtonrhapson", None), ("C04", "element", lambda cfg: cfg.get("tier") != "thorough"), ("C05", "scheme", lambda cfg: cfg.get("tier") != "thorough")],
 }
